@@ -65,6 +65,7 @@ func init() {
 		ruleGeoJSONTables,
 		ruleMemberLoops(inPkgs("geojson."), 3, 0),
 		ruleLoopShapes(inPkgs("geojson."), 3, 2),
+		ruleContainerReset(inPkgs("geojson."), 2),
 		ruleShapeFaults(shapeConfig{label: "geojson constructors", keep: inPkgs("geojson."), floor: 2}),
 	)
 
